@@ -106,6 +106,8 @@ RULE = ('random object trees (depth <= 4; exposed/unexposed index, default, meth
         'dispatchers; index/default/aliases/_cp_config at every level) x paths walking the tree through attributes and '
         'dispatchers with punctuation variants, unknown names, vpath tails, %2F, dots, dunder names, trailing and doubled '
         'slashes, query strings and form bodies; default and method dispatcher, behind VirtualHost / XMLRPCDispatcher; '
+        'several instances of one class told apart by instance attributes (per-instance verbs / index / default / mark) '
+        'with request sequences in both orders; custom dispatch_method_name, exposed pages under the dispatch method name; '
         'mount tables x SCRIPT_NAME/PATH_INFO pairs; 2 or 3 requests in flight in real threads, parked deterministically '
         'at gate events of the generated tree (dispatcher calls, handler functions, attribute reads), resumed lifo/fifo; non-trivial = the path has at least one segment; distinct = distinct '
         '(tree, path, method, query, body, headers, wrapper)')
@@ -451,7 +453,7 @@ def _restore(s):
     return s.replace('%2F', '/')
 
 
-def ref_trail(root, segs, log):
+def ref_trail(root, segs, log, dname='_cp_dispatch'):
     """The objects the path leads through, written from the statement: [(object, segments matched so far)].
 
     A segment is matched by the attribute of that (translated) name; where there is none and the recording
@@ -474,7 +476,7 @@ def ref_trail(root, segs, log):
             node = sub
         else:
             ent = log[k] if k < len(log) else None
-            d = getattr(node, '_cp_dispatch', None)
+            d = getattr(node, dname, None)
             if ent is not None and d is not None and getattr(d, '__func__', d) is ent['fn'] and \
                     getattr(d, '__self__', None) is ent['self'] and ent['before'] == rest:
                 k += 1
@@ -504,7 +506,7 @@ def ref_trail(root, segs, log):
     return chain, wf, None
 
 
-def ref_candidates(root, path_info, log=()):
+def ref_candidates(root, path_info, log=(), dname='_cp_dispatch'):
     """The acceptable (callable, positional args) choices for this path, [] = must be 404; None = the
     reference has nothing to say (a dispatcher raised / added segments).
 
@@ -512,7 +514,7 @@ def ref_candidates(root, path_info, log=()):
     the object's exposed `default` or the exposed object itself, with the unmatched segments (args None:
     any suffix, when a dispatcher rewrote the list instead of removing from its front)."""
     segs = [s for s in path_info.split('/') if s]
-    chain, wf, note = ref_trail(root, segs, list(log))
+    chain, wf, note = ref_trail(root, segs, list(log), dname)
     if note is not None:
         return None, note
     for o, consumed in reversed(chain):
@@ -561,6 +563,57 @@ def expected_kwargs(case, log):
     return kw, skip, bad
 
 
+def dispatcher_call_oracle(built, case, log):
+    """What may be called as a dynamic dispatcher, and what `cherrypy.popargs` promises about one call.
+
+    * An exposed callable is a page: it is called as the handler of a request or not at all - never with
+      `vpath=` as a dispatcher; and only the attribute named `dispatch_method_name` is a dispatcher.
+    * popargs(*names, handler=h) called with a list: n = min(len(names), len(list)) segments are taken from the
+      front; with a handler the rest stays and the handler (object, or the function's result) comes back; without
+      one `self` is the ultimate handler: the next segment, if any, is taken too and resolved by getattr on self
+      (so that the node's own dispatcher is not asked again), else self comes back."""
+    bad = []
+    nodes = case['tree']['nodes']
+    dname = case['tree'].get('dispatch_name') or '_cp_dispatch'
+    for ent in log:
+        fn, slf = ent['fn'], ent['self']
+        if bool(getattr(fn, 'exposed', False)):
+            bad.append(('the exposed callable %r of node %d (a page) was called as a dynamic dispatcher with vpath=%s'
+                        % (dname, ent['node'], ent['before']), 'exposed_called_as_dispatcher'))
+        owner = slf if slf is not None else built.classes[ent['node']]
+        d = getattr(owner, dname, None)
+        if getattr(d, '__func__', d) is not fn:
+            bad.append(('a callable of node %d that is not its %r attribute was called as a dynamic dispatcher '
+                        'with vpath=%s' % (ent['node'], dname, ent['before']), 'not_the_dispatch_method'))
+        d = nodes[ent['node']].get('disp') or {}
+        if not d.get('t', '').startswith('popargs') or ent['before'] is None or ent['raised'] or ent['after'] is None:
+            continue
+        names = list(d['names']) if d.get('names') is not None else ['p%d' % i for i in range(d.get('n', 0))]
+        before = ent['before']
+        n = min(len(names), len(before))
+        rest = before[n:]
+        h = d.get('h') if d['t'] == 'popargs_attr' else None
+        if h is None:
+            want_after = rest[1:]
+            want_ret = getattr(slf, rest[0], None) if rest else slf
+        else:
+            want_after = rest
+            want_ret = None if h[1] is None else built.objs[h[1]]
+        same = ent['ret'] is want_ret
+        if not same:
+            try:
+                same = bool(ent['ret'] == want_ret) and type(ent['ret']) is type(want_ret)
+            except Exception:
+                same = False
+        if ent['after'] != want_after or not same:
+            bad.append(('popargs%s of node %d given %s: must leave %s and return %s, left %s and returned %s'
+                        % (tuple(names), ent['node'], before, want_after,
+                           'self' if want_ret is slf and slf is not None else _pid_of(want_ret) or repr(want_ret),
+                           ent['after'], 'self' if ent['ret'] is slf and slf is not None else
+                           _pid_of(ent['ret']) or repr(ent['ret'])), 'popargs_contract'))
+    return bad
+
+
 def expose_oracle(built):
     """`cherrypy.expose` sets the mark, and registers every alias (dots -> underscores) for the same callable."""
     bad = []
@@ -583,7 +636,7 @@ def _pid_of(o):
     if getattr(o, '_gen_node', False) is True and not isinstance(o, type):
         c = type(o).__dict__.get('__call__')
         if c is not None:
-            return c._pid
+            return '%d()' % getattr(o, '_gen_inst', int(c._pid[:-2]))
     return None
 
 
@@ -619,6 +672,7 @@ def oracle(built, case, obs):
     log = obs.get('disp_log') or []
     if has_disp and not getattr(built, 'instrument', False):
         return bad         # nothing recorded what the dispatchers consumed: only the clauses above
+    bad.extend(dispatcher_call_oracle(built, case, log))
     # (3) keyword arguments: query/body parameters and what popargs bound, nothing else
     want, skip, kbad = expected_kwargs(case, log)
     bad.extend(kbad)
@@ -627,7 +681,7 @@ def oracle(built, case, obs):
         if {k: v for k, v in got.items() if k not in skip} != {k: v for k, v in want.items() if k not in skip}:
             bad.append(('handler %s got keyword arguments %s; query/body parameters and popargs bindings are %s'
                         % (ran[0][0], got, want), 'wrong_kwargs'))
-    alts, note = ref_candidates(built.root, pi, log)
+    alts, note = ref_candidates(built.root, pi, log, spec.get('dispatch_name') or '_cp_dispatch')
     if alts is None:
         obs['oracle_note'] = note
         return bad
@@ -747,13 +801,15 @@ def tree_variants(spec):
     import copy
     if spec.get('sections'):
         yield {k: v for k, v in spec.items() if k != 'sections'}
+    if spec.get('dispatch_name'):
+        yield {k: v for k, v in spec.items() if k != 'dispatch_name'}
     for n, nd in enumerate(spec['nodes']):
-        for field in ('kids', 'meth', 'vals'):
+        for field in ('kids', 'meth', 'vals', 'imeth', 'ivals'):
             for j in range(len(nd.get(field, []))):
                 new = copy.deepcopy(spec)
                 del new['nodes'][n][field][j]
                 yield new
-        for field in ('disp', 'conf', 'call', 'exp'):
+        for field in ('disp', 'conf', 'call', 'exp', 'iexp', 'same_as'):
             if nd.get(field) is not None:
                 new = copy.deepcopy(spec)
                 new['nodes'][n][field] = None
@@ -795,6 +851,8 @@ def gc_tree(spec):
         reach.append(i)
         nd = nodes[i]
         refs = [j for _, j in nd.get('kids', [])]
+        if nd.get('same_as') is not None:
+            refs.append(nd['same_as'])
         d = nd.get('disp') or {}
         if isinstance(d.get('h'), list) and d['h'][1] is not None:
             refs.append(d['h'][1])
@@ -807,6 +865,8 @@ def gc_tree(spec):
     for old in reach:
         nd = copy.deepcopy(nodes[old])
         nd['kids'] = [[n, idx[j]] for n, j in nd.get('kids', [])]
+        if nd.get('same_as') is not None:
+            nd['same_as'] = idx[nd['same_as']]
         d = nd.get('disp') or {}
         if isinstance(d.get('h'), list) and d['h'][1] is not None:
             d['h'][1] = idx[d['h'][1]]
@@ -814,8 +874,9 @@ def gc_tree(spec):
             d['ret'][1] = idx[d['ret'][1]]
         out.append(nd)
     res = {'nodes': out}
-    if spec.get('sections'):
-        res['sections'] = spec['sections']
+    for k in ('sections', 'dispatch_name'):
+        if spec.get(k):
+            res[k] = spec[k]
     return res
 
 
@@ -1140,6 +1201,9 @@ def check_batch(ctx, batch, compare_model=True):
                 report_failure(ctx, case, 'the same request answered differently in a different history: %s vs %s'
                                % (strip_obs(o), strip_obs(again[k])), 'not_pure', shrink_case,
                                reqs + reqs[k + 1:][::-1])
+            if spec.get('dispatch_name'):
+                ctx.count('custom_dispatch_method_name')      # the model knows the standard name only: oracle only
+                continue
             if not mut:
                 pending.append((case, view, kind, strip_obs(o), lines[k], False))
             if o.get('fline'):
@@ -1256,10 +1320,20 @@ def gen_levels(rng, kind='D'):
 
     depth = rng.choice([2, 2, 3, 3, 4])
     spine = [plain(nocall=True) for _ in range(depth)]
+    spec = {'nodes': nodes}
+    # a dispatcher configured with its own dispatch method name (`Dispatcher('dispatch')`): generated dispatchers
+    # live under that name, `_cp_dispatch` is then an ordinary attribute
+    dname = '_cp_dispatch'
+    if rng.random() < 0.12:
+        # (names no generated probe ever carries: an unexposed probe under that name would BE a dispatcher)
+        dname = spec['dispatch_name'] = rng.choice(['dispatch', 'route', 'resolve'])
     for lv, i in enumerate(spine):
         nd = nodes[i]
         nxt = spine[lv + 1] if lv + 1 < depth else None
-        used = {n for n, _ in nd['meth']}
+        nd['meth'] = [m for m in nd['meth'] if m[0] != dname]
+        used = {n for n, _ in nd['meth']} | {dname}
+        if dname != '_cp_dispatch' and rng.random() < 0.3:
+            nd['meth'].append(['_cp_dispatch', {'exp': _mark(rng, 0.5)}])    # an ordinary attribute here
         # ordinary children: the next level (so that attribute steps and dispatcher steps mix) and a leaf
         if nxt is not None and rng.random() < 0.7:
             name = rng.choice([n for n in ['n', 'a', 'b', 'a_b', 'x_y'] if n not in used])
@@ -1275,7 +1349,12 @@ def gen_levels(rng, kind='D'):
         r = rng.random()
         if lv > 0 and r < 0.12:
             continue                      # a level without dispatcher
-        if r < 0.25:
+        if r < 0.17:
+            # no dispatcher, but an exposed PAGE (probe) under the dispatch method's name (an unexposed callable there
+            # would be a dispatcher)
+            nd['meth'].append([dname, {'exp': rng.choice([True, True, 1])}])
+            continue
+        if r < 0.27:
             nd['disp'] = {'t': 'popargs_cls', 'names': names}
         elif r < 0.6:
             hk = rng.choice(['none', 'obj', 'obj', 'fn', 'fn', 'fn_none'])
@@ -1293,10 +1372,89 @@ def gen_levels(rng, kind='D'):
                 d['add'] = [rng.choice(['a', 'b'])]
             elif ra < 0.14:
                 d['mut'] = rng.choice(['popback', 'lower', 'reverse', 'clear', 'rename0', 'rename1'])
-            if rng.random() < 0.04:
-                d['exp'] = rng.choice([True, 1, False])
+            if rng.random() < 0.09:
+                d['exp'] = rng.choice([True, True, 1, False])
             nd['disp'] = d
-    return {'nodes': nodes}
+    # further instances of a level's class, with attributes of their own (per-instance handlers / verbs / mark)
+    for i in list(spine):
+        if rng.random() < 0.3 and nodes[0] is not nodes[i]:
+            sib = sibling_instance(rng, nodes, i, kind)
+            holder = nodes[rng.choice([j for j in spine if j != i] or [0])]
+            free = [n for n in ['s', 'sib', 'b', 'c'] if n not in {k for k, _ in holder['kids']} and
+                    n not in {k for k, _ in holder['meth']}]
+            if free:
+                holder['kids'].append([free[0], sib])
+    return spec
+
+
+def sibling_instance(rng, nodes, j, kind):
+    """Another instance of node j's class with instance-level attributes (setattr on the instance)."""
+    nd = {'exp': None, 'call': None, 'falsy': False, 'meth': [], 'vals': [], 'kids': [], 'disp': None, 'conf': None,
+          'same_as': j, 'imeth': [], 'ivals': []}
+    nodes.append(nd)
+    i = len(nodes) - 1
+    if kind == 'M':
+        for v in VERBS + ['PATCH']:
+            if rng.random() < 0.4:
+                nd['imeth'].append([v, {'exp': _mark(rng, 0.3)}])
+        if rng.random() < 0.15:
+            nd['ivals'].append([rng.choice(VERBS), rng.choice([None, 0, 'text'])])
+        if rng.random() < 0.15:
+            nd['ivals'].append([rng.choice(['X', 'ZZ']), 5])
+    else:
+        for name in ('index', 'default', 'a'):
+            if rng.random() < 0.4:
+                nd['imeth'].append([name, {'exp': _mark(rng, 0.7)}])
+    if rng.random() < 0.3:
+        nd['iexp'] = rng.choice([True, True, False, 0, 1])
+    return i
+
+
+def gen_shared_class(rng, kind='M'):
+    """Several resources that are instances of ONE class, told apart only by instance attributes (per-instance verbs
+    for the method dispatcher; per-instance index / default / exposed mark for the default one), below a root, and a
+    request sequence over them.  Returned twice: the sequence and its reverse (each on a fresh application)."""
+    nodes = [{'exp': True if kind == 'M' else None, 'call': None, 'falsy': False, 'meth': [['index', {'exp': True}]],
+              'vals': [], 'kids': [], 'disp': None, 'conf': None}]
+    first = {'exp': _mark(rng, 0.85) if kind == 'M' else _mark(rng, 0.3),
+             'call': {} if (kind == 'D' and rng.random() < 0.5) else None, 'falsy': False, 'meth': [], 'vals': [],
+             'kids': [], 'disp': None, 'conf': None, 'imeth': [], 'ivals': []}
+    if kind == 'M':
+        for v in VERBS:
+            if rng.random() < 0.35:
+                first['meth'].append([v, {'exp': _mark(rng, 0.3)}])
+    else:
+        for name in ('index', 'default'):
+            if rng.random() < 0.4:
+                first['meth'].append([name, {'exp': _mark(rng, 0.7)}])
+    nodes.append(first)
+    names = ['r1', 'r2', 'r3', 'r4', 'a_b']
+    nodes[0]['kids'].append([names[0], 1])
+    for k in range(rng.choice([1, 2, 2, 3])):
+        nodes[0]['kids'].append([names[k + 1], sibling_instance(rng, nodes, 1, kind)])
+    if rng.random() < 0.5:
+        # the first instance too has something of its own
+        for v in (VERBS if kind == 'M' else ['index', 'default']):
+            if rng.random() < 0.25 and v not in {n for n, _ in first['meth']}:
+                first['imeth'].append([v, {'exp': _mark(rng, 0.5)}])
+    if rng.random() < 0.3:
+        # instances below an instance
+        nodes[1]['kids'].append(['sub', sibling_instance(rng, nodes, 1, kind)])
+    spec = {'nodes': nodes}
+    reqs = []
+    for _ in range(rng.choice([6, 8, 10])):
+        k, _j = rng.choice(nodes[0]['kids'])
+        p = '/' + seg_variant(rng, k) + rng.choice(['', '', '/', '/x', '/sub', '/sub/', '/x%2Fy/z'])
+        m = rng.choice(REQ_METHODS) if kind == 'M' else rng.choice(['GET', 'GET', 'HEAD', 'POST'])
+        reqs.append((p, m))
+    return [(spec, kind, reqs, True), (spec, kind, reqs[::-1], False)]
+
+
+def gen_batch_shared(rng, n):
+    out = []
+    for i in range(n):
+        out += gen_shared_class(rng, 'M' if i % 3 != 2 else 'D')
+    return out
 
 
 def _hop(rng, spec, cur):
@@ -1349,7 +1507,7 @@ def gen_path_levels(rng, spec):
         if nd.get('disp') is not None and r < 0.65:
             s2, cur = _hop(rng, spec, cur)
             segs += s2
-        elif attrs and r < 0.9:
+        elif attrs and r < (0.9 if nd.get('disp') is not None else 0.75):
             name, cur = rng.choice(attrs)
             segs.append(seg_variant(rng, name))
         else:
@@ -2073,6 +2231,7 @@ def _worker(args):
     sub.lean = _WORKER_LEAN[0]
     check_batch(sub, gen_batch(sub.rng, n_trees))
     check_batch(sub, gen_batch_levels(sub.rng, n_trees // 3))
+    check_batch(sub, gen_batch_shared(sub.rng, n_trees // 8))
     return _export(sub)
 
 
@@ -2138,6 +2297,7 @@ def _run(ctx):
     if ctx.quick():
         check_batch(ctx, gen_batch(ctx.rng, 900))
         check_batch(ctx, gen_batch_levels(ctx.rng, 320))
+        check_batch(ctx, gen_batch_shared(ctx.rng, 100))
         check_mounts(ctx, [gen_mount_case(ctx.rng) for _ in range(60)])
         check_conc(ctx, gen_conc_cases(ctx.rng, 90))
         return
@@ -2178,6 +2338,9 @@ def search(ctx, around=None):
             return
     # trees full of dispatchers, judged through what the recording wrappers saw
     check_batch(ctx, gen_batch_levels(ctx.rng, 300), compare_model=False)
+    if ctx.oracle_failures:
+        return
+    check_batch(ctx, gen_batch_shared(ctx.rng, 150), compare_model=False)
     if ctx.oracle_failures:
         return
     check_conc(ctx, gen_conc_cases(ctx.rng, 150))
@@ -2222,10 +2385,10 @@ def replay(ctx, case):
     print('request:', case['method'], case['path'], '(dispatcher %s)' % kind,
           'query=%r body=%r' % (case.get('query'), case.get('body')))
     print('impl   :', json.dumps(strip_obs(obs[0])))
-    m = ctx.model(lines) if not has_mut(spec) else None
+    m = ctx.model(lines) if not (has_mut(spec) or spec.get('dispatch_name')) else None
     if m:
         print('model  :', m[0], '->', json.dumps(model_expectation(m[0], view, kind)))
-    if obs[0].get('fline'):
+    if obs[0].get('fline') and not spec.get('dispatch_name'):
         m = ctx.model([obs[0]['fline']])
         if m:
             print('model/F:', m[0], '->', json.dumps(model_expectation(m[0], view, kind)))
